@@ -8,6 +8,7 @@ package main
 
 import (
 	"bytes"
+	"encoding/hex"
 	"encoding/json"
 	"fmt"
 	"strconv"
@@ -20,12 +21,13 @@ import (
 
 // hop is one step of the history applied to the object before the decode under test.
 type hop struct {
-	K   string `json:"k"` // S SetASC(cfg) | P write cfg through ASC() | E Encode | D Decode(frame) | X failing Decode | R rejected SetASC
+	K   string `json:"k"` // S SetASC(cfg) | P write cfg through ASC() | E Encode | D Decode(frame) | X failing Decode | R rejected SetASC | B SetASC(bytes Hex), verdict not judged (aschist.go)
 	Cfg cfgT   `json:"cfg"`
 	Src string `json:"src,omitempty"` // D: "lib" (library encoder, Cfg.Obj is the object type) or "ref" (ISO writer, profile of Cfg.Obj)
 	ID  uint8  `json:"id,omitempty"`
 	PA  uint8  `json:"pa,omitempty"`
-	N   int    `json:"n,omitempty"` // X, R: variant
+	N   int    `json:"n,omitempty"`   // X, R: variant
+	Hex string `json:"hex,omitempty"` // B: the bytes
 }
 
 func (h hop) String() string {
@@ -45,6 +47,8 @@ func (h hop) String() string {
 		return fmt.Sprintf("Decode(%s) [fails]", []string{"7-byte header only", "no sync word", "truncated SSR frame", "frame with profile 3 sfi 15 ch 0"}[h.N])
 	case "R":
 		return fmt.Sprintf("SetASC(%s) [rejected]", []string{"object 4", "object 5 sfi 0", "object 29 sfi 13 ch 0", "all zero", "1 byte"}[h.N])
+	case "B":
+		return fmt.Sprintf("SetASC(%s) [%s]", h.Hex, ahBytesNote(h.Hex))
 	}
 	return "?"
 }
@@ -110,19 +114,13 @@ func applyHop(m aac.ADTS, h hop) (judged bool, err error) {
 		}
 		m.Decode(f) // judged as a decode under test of the shorter history
 	case "X":
-		var in []byte
-		switch h.N {
-		case 0:
-			in, _ = refFrame(1, 1, cfgT{3, 11, 3}, 0, 0x7FF, 0, 1)
-		case 1:
-			in = make([]byte, 12)
-		case 2:
-			in, _ = refFrame(1, 1, cfgT{3, 11, 3}, 0, 0x7FF, 20, 1)
-			in = in[:17]
-		case 3:
-			in = adtsref.Write(adtsref.Header{ID: 1, ProtectionAbsent: 1, Profile: 3, SFI: 15, Channels: 0, Fullness: 0x7FF}, payload(4, 2))
-		}
+		in := failingInput(h.N)
 		if p, _ := hl.Try(func() { m.Decode(in) }); p {
+			judged = false
+		}
+	case "B":
+		in, _ := hex.DecodeString(h.Hex)
+		if p, _ := hl.Try(func() { m.SetASC(in) }); p {
 			judged = false
 		}
 	case "R":
@@ -147,6 +145,22 @@ func applyHop(m aac.ADTS, h hop) (judged bool, err error) {
 		}
 	}
 	return
+}
+
+// failingInput: the input of the X (failing Decode) step, variant n.
+func failingInput(n int) (in []byte) {
+	switch n {
+	case 0:
+		in, _ = refFrame(1, 1, cfgT{3, 11, 3}, 0, 0x7FF, 0, 1)
+	case 1:
+		in = make([]byte, 12)
+	case 2:
+		in, _ = refFrame(1, 1, cfgT{3, 11, 3}, 0, 0x7FF, 20, 1)
+		in = in[:17]
+	case 3:
+		in = adtsref.Write(adtsref.Header{ID: 1, ProtectionAbsent: 1, Profile: 3, SFI: 15, Channels: 0, Fullness: 0x7FF}, payload(4, 2))
+	}
+	return in
 }
 
 func histString(hist []hop) string {
